@@ -55,6 +55,15 @@ func VH_C10_flusher() {
 	vAssume(vAnd(threshold >= 1, threshold <= 5))
 	vAssert("C10.create", db.Create(&vObj{}, vhAsyncSchema(threshold, timeout)) == nil)
 	var rows []vhRow
+	// the collection may have been idle for whole timeout periods before the
+	// first write arrives: the flusher must still be there afterwards
+	period := int((timeout+99*time.Millisecond)/(100*time.Millisecond)) + 1
+	if idle := vChoice("idle", 3); idle > 0 {
+		// the flusher is started by the first access to the collection
+		cnt, cerr := db.Count(&vObj{})
+		vAssert("C10.flusher.idle_count", cerr == nil && cnt == 0)
+		vRunSpawned(idle * period)
+	}
 	n := vLen("n", 1, vBound("PRE", 3))
 	for k := 0; k < n; k++ {
 		o := vhNewObj()
